@@ -45,7 +45,7 @@ func init() {
 	register(PropSpec{
 		ID:    "C02",
 		Title: "Stream layering targets the right documents and treats each independently",
-		Rules: []func(*Prog, *Result){ruleMergeSourcesPrivate("C02.indep"), ruleFieldWriterCensus("C02.order")},
+		Rules: []func(*Prog, *Result){ruleC02Select, ruleMergeSourcesPrivate("C02.indep"), ruleFieldWriterCensus("C02.order")},
 	})
 	register(PropSpec{
 		ID:    "C10",
